@@ -36,8 +36,8 @@ func sortedCopy[T any, PT interface {
 	res := make([]T, len(toSort))
 	copy(res, toSort)
 	sort.Slice(res, func(i, j int) bool {
-		first := PT(&toSort[i])
-		second := PT(&toSort[j])
+		first := PT(&res[i])
+		second := PT(&res[j])
 		return first.GetName() < second.GetName()
 	})
 	return res
